@@ -691,7 +691,11 @@ def instr_replay(ctx, c, want):
 # asynchronous back end (harness/src/bin/p_nested_close.rs; fork per boundary)
 CLOSE_CONFIGS = [('q', '-'), ('q', 's'), ('q', 't'), ('q', 'st'), ('w', 's'), ('w', 't'), ('w', 'ts'), ('f', 's'), ('f', 't'), ('f', 'st'),
                  # many undrained wake-up bytes (a consumer that reads them in chunks must still see the close byte for what it is)
-                 ('w', 's' * 63), ('f', 's' * 63), ('w', 's' * 64), ('q', 's' * 63), ('w', 'st' * 127)]
+                 ('w', 's' * 63), ('f', 's' * 63), ('w', 's' * 64), ('q', 's' * 63), ('w', 'st' * 127),
+                 # a stale wake-up byte in the pipe (upper case: delivered and handed out by the batch the iterator holds)
+                 ('q', 'S'), ('q', 'ST'), ('q', 'TSs')]
+STALE_CONFIGS = [('q', '-'), ('q', 'S'), ('q', 'ST'), ('q', 'TSs'), ('q', 's')]
+C09_POLL_KINDS = ('UNARMED', 'STRANDED')
 CLOSE_NAMES = {'q': 'poll_signal (non-blocking callback)', 'w': 'wait()', 'f': 'forever().next()'}
 C11_KINDS = ('UNARMED', 'STRANDED', 'STICKY', 'ENDLESS', 'ERR', 'BLOCKED', 'CRASH')
 
@@ -716,10 +720,10 @@ def close_one(cfg, konly=None, timeout=240):
     return {'cfg': cfg, 'rows': rows, 'end': end, 'rc': rc, 'tail': out[-300:]}
 
 
-def close_sweep(ctx, want):
+def close_sweep(ctx, want, configs=None, key='instruction_close_sweep'):
     from concurrent.futures import ThreadPoolExecutor
-    CLOSE_CONFIGS = globals()['CLOSE_CONFIGS']
-    if ctx.tier == 'thorough':
+    CLOSE_CONFIGS = configs or globals()['CLOSE_CONFIGS']
+    if ctx.tier == 'thorough' and not configs:
         import itertools
         pres = [''.join(p) for n in (1, 2, 3) for p in itertools.product('st', repeat=n)]
         CLOSE_CONFIGS = [('q', '-')] + [(o, pre) for o in 'qwf' for pre in pres]
@@ -750,7 +754,7 @@ def close_sweep(ctx, want):
                                   '%s, close() called after %d instructions of the call: %s [%s]' % (name, row['k'], row['verdict'], row['observed']),
                                   {'close_sweep': {'outer': o, 'pre': pre, 'k': row['k']}, 'observed': row})
     ctx.correspondence('instruction-level close sweep ran to the end in all %d configurations' % len(CLOSE_CONFIGS), not incomplete, incomplete[:3])
-    ctx.coverage['instruction_close_sweep'] = {'configurations': len(CLOSE_CONFIGS), 'boundaries': total, 'complaints': hits, 'boundaries_per_configuration': per}
+    ctx.coverage[key] = {'configurations': len(CLOSE_CONFIGS), 'boundaries': total, 'complaints': hits, 'boundaries_per_configuration': per}
     ctx.traces += total - sum(hits.values())
 
 
